@@ -149,7 +149,9 @@ enum Op {
     /// WHERE drops / polls run from now on (only valid before the first real operation): environment
     /// (`ENV_NAMES`) and which operations it applies to (0 owner-ending ops, 1 guard drops incl. free flush /
     /// force-flush guards, 2 `wait_for_data` polls, 3 all of them)
-    Env(u8, u8),
+    /// third component: how drop operations of the selected classes release their object (`PANIC_NAMES`):
+    /// 0 plain drop, 1–3 dropped by a contained unwinding panic
+    Env(u8, u8, u8),
     Dfg,
     Ddg,
     Open(usize, bool, u64), // slot, wait?, initial value (lazy slots)
@@ -174,7 +176,8 @@ impl Op {
             Op::Dref => "dref".into(),
             Op::Fin(k, v) => format!("fin:{k}:{v}"),
             Op::Ctor(k) => format!("ctor:{k}"),
-            Op::Env(e, w) => format!("env:{e}:{w}"),
+            Op::Env(e, w, 0) => format!("env:{e}:{w}"),
+            Op::Env(e, w, p) => format!("env:{e}:{w}:{p}"),
             Op::Dfg => "dfg".into(),
             Op::Ddg => "ddg".into(),
             Op::Open(i, w, v) => format!("open:{i}:{}:{v}", if w { "w" } else { "d" }),
@@ -200,7 +203,8 @@ impl Op {
             ("dref", 1) => Op::Dref,
             ("fin", 3) => Op::Fin(n(1)? as u8, n(2)?),
             ("ctor", 2) => Op::Ctor(n(1)? as u8),
-            ("env", 3) => Op::Env(n(1)? as u8, n(2)? as u8),
+            ("env", 3) => Op::Env(n(1)? as u8, n(2)? as u8, 0),
+            ("env", 4) => Op::Env(n(1)? as u8, n(2)? as u8, n(3)? as u8),
             ("dfg", 1) => Op::Dfg,
             ("ddg", 1) => Op::Ddg,
             ("open", 4) => Op::Open(n(1)? as usize, f[2] == "w", n(3)?),
@@ -245,7 +249,7 @@ impl Shadow {
             Op::Hit(_) | Op::Dref => own || self.handles > 0,
             Op::Fin(k, _) => own && (k as usize) < N_FINISHERS,
             Op::Ctor(k) => !self.started && (k as usize) < N_CTORS,
-            Op::Env(e, w) => !self.started && (e as usize) < N_ENVS && w < 4,
+            Op::Env(e, w, p) => !self.started && (e as usize) < N_ENVS && w < 4 && (p as usize) < N_PANICS,
             Op::Cl => self.handles > 0,
             Op::Dfg => self.fgs > 0,
             Op::Ddg => self.dgs > 0,
@@ -418,8 +422,8 @@ struct World {
     dgs: Vec<Pin<Box<ForceFlushGuard>>>,
     guards: [Option<SlotGuard<Child>>; NSLOTS],
     fut: Option<(usize, WaitFut)>,
-    /// (environment, which operations run in it), see `Op::Env`
-    env: (u8, u8),
+    /// (environment, which operations run in it, how drops release), see `Op::Env`
+    env: (u8, u8, u8),
 }
 
 fn new_world(init: [u64; 2], ctor: u8) -> World {
@@ -520,7 +524,7 @@ fn finish_owner(o: Owner, k: u8, v: u64) {
 
 fn new_world_with(init: [u64; 2], sink: RecSink, ctor: u8) -> World {
     let owner = build_owner(init, sink.clone(), ctor);
-    World { sink, owner: Some(owner), handles: vec![], fgs: vec![], dgs: vec![], guards: [None, None, None, None], fut: None, env: (0, 0) }
+    World { sink, owner: Some(owner), handles: vec![], fgs: vec![], dgs: vec![], guards: [None, None, None, None], fut: None, env: (0, 0, 0) }
 }
 
 struct WakeFlag(std::sync::atomic::AtomicBool);
@@ -657,6 +661,90 @@ fn run_in_env<R: 'static>(env: u8, f: impl FnOnce() -> R + 'static) -> R {
     }
 }
 
+// ------------------------------------------------------------------------------------------------
+// HOW a drop operation releases its object: by a plain `drop`, or because the scope / thread / task that owns it
+// panics and unwinds (the panic is contained and recognised by its payload).  For the property a drop during
+// unwinding is a drop like any other ("in whatever order and on whatever threads those drops occur").
+
+const N_PANICS: usize = 4;
+const PANIC_NAMES: [&str; N_PANICS] = [
+    "plain drop",
+    "owning scope panics (catch_unwind on the op's thread)",
+    "owning spawned thread panics (joined)",
+    "owning tokio task panics (JoinError)",
+];
+static PANIC_DROPS: [AtomicU64; N_PANICS] = [AtomicU64::new(0), AtomicU64::new(0), AtomicU64::new(0), AtomicU64::new(0)];
+
+/// payload of the harness's own, contained panics
+struct Contained;
+
+fn unwind_owning<T>(obj: T) -> ! {
+    let _owned = obj;
+    std::panic::panic_any(Contained)
+}
+
+fn expect_contained(r: Result<(), Box<dyn std::any::Any + Send>>) {
+    match r {
+        Err(p) if p.is::<Contained>() => {}
+        // a panic raised by the code under test (e.g. inside a destructor): not ours, pass it on
+        Err(p) => std::panic::resume_unwind(p),
+        Ok(()) => panic!("harness: the panicking scope returned normally"),
+    }
+}
+
+/// Runs `f`, which owns some objects and ends in `unwind_owning` / a `Contained` panic, in environment `env`,
+/// with the panic contained the `pm`-th way.
+fn panic_in(env: u8, pm: u8, f: impl FnOnce() + 'static) {
+    PANIC_DROPS[pm as usize].fetch_add(1, Ordering::Relaxed);
+    match pm {
+        1 => run_in_env(env, move || expect_contained(std::panic::catch_unwind(std::panic::AssertUnwindSafe(f)))),
+        2 => run_in_env(env, move || {
+            let f = AssertSend(f);
+            let h = std::thread::spawn(move || f.into_inner()());
+            expect_contained(h.join())
+        }),
+        _ => {
+            // the environment's task itself panics; on a plain thread (env 0) a fresh current-thread runtime task does
+            let env = if env == 0 { 1 } else { env };
+            let r = std::panic::catch_unwind(std::panic::AssertUnwindSafe(move || run_in_env(env, f)));
+            expect_contained(r)
+        }
+    }
+}
+
+/// a drop operation: `obj` is released in environment `env`, the `pm`-th way
+fn release<T: 'static>(env: u8, pm: u8, obj: T) {
+    if pm == 0 {
+        PANIC_DROPS[0].fetch_add(1, Ordering::Relaxed);
+        run_in_env(env, move || drop(obj))
+    } else {
+        panic_in(env, pm, move || unwind_owning(obj))
+    }
+}
+
+/// finisher `k` of the owner; with `pm != 0` the handler panics instead of finishing: the guard is then dropped by
+/// the unwind — inside `Instrumented::instrument`'s closure for the mutating finishers (after the mutation), inside
+/// an `Instrumented` wrapper otherwise
+fn finish_in(env: u8, pm: u8, o: Owner, k: u8, v: u64) {
+    use metrique::instrument::Instrumented;
+    if pm == 0 {
+        PANIC_DROPS[0].fetch_add(1, Ordering::Relaxed);
+        return run_in_env(env, move || finish_owner(o, k, v));
+    }
+    panic_in(env, pm, move || {
+        if finisher_mutates(k) {
+            let _: Instrumented<(), Owner> = Instrumented::instrument(o, |m| {
+                m.plain = v;
+                std::panic::panic_any(Contained)
+            });
+        } else if k == 0 {
+            unwind_owning(o)
+        } else {
+            unwind_owning(Instrumented::from_parts((), o))
+        }
+    })
+}
+
 impl World {
     /// executes one (valid) op; returns (result token, open_ok, ready)
     fn env_for(&self, op: &Op) -> u8 {
@@ -669,8 +757,19 @@ impl World {
         if self.env.1 == 3 || self.env.1 == class { self.env.0 } else { 0 }
     }
 
+    /// how a drop operation releases its object (0 = plain drop); polls are never "panicked"
+    fn panic_for(&self, op: &Op) -> u8 {
+        let class = match op {
+            Op::Dref | Op::Fin(..) => 0,
+            Op::Gd(_) | Op::Dfg | Op::Ddg => 1,
+            _ => return 0,
+        };
+        if self.env.1 == 3 || self.env.1 == class { self.env.2 } else { 0 }
+    }
+
     fn exec(&mut self, op: &Op) -> (String, bool, bool) {
         let env = self.env_for(op);
+        let pm = self.panic_for(op);
         let mut res = "-".to_string();
         let mut open_ok = false;
         let mut ready = false;
@@ -688,25 +787,22 @@ impl World {
             Op::Dref => {
                 let o = self.owner.take();
                 let h = if o.is_none() { self.handles.pop() } else { None };
-                run_in_env(env, move || {
-                    drop(o);
-                    drop(h)
-                })
+                release(env, pm, (o, h))
             }
             Op::Fin(k, v) => {
                 let o = self.owner.take().unwrap();
-                run_in_env(env, move || finish_owner(o, k, v))
+                finish_in(env, pm, o, k, v)
             }
             // the constructor was chosen when the world was built (`ctor_of`)
             Op::Ctor(_) => {}
-            Op::Env(e, w) => self.env = (e, w),
+            Op::Env(e, w, p) => self.env = (e, w, p),
             Op::Dfg => {
                 let g = self.fgs.pop();
-                run_in_env(env, move || drop(g))
+                release(env, pm, g)
             }
             Op::Ddg => {
                 let g = self.dgs.pop();
-                run_in_env(env, move || drop(g))
+                release(env, pm, g)
             }
             Op::Open(i, w, v0) => {
                 let mode = if w { OnParentDrop::Wait(self.fgs.pop().unwrap()) } else { OnParentDrop::Discard };
@@ -767,7 +863,7 @@ impl World {
             Op::Gm(i, v) => self.guards[i].as_mut().unwrap().val = v,
             Op::Gd(i) => {
                 let g = self.guards[i].take();
-                run_in_env(env, move || drop(g))
+                release(env, pm, g)
             }
             Op::Gc(i) => res = if self.guards[i].as_ref().unwrap().parent_is_closed() { "t".into() } else { "f".into() },
         }
@@ -1031,7 +1127,7 @@ fn random_case_opts(rng: &mut Rng, slots: bool, tail: bool, max_len: u64) -> Cas
     let mut ops = vec![];
     if rng.chance(1, 2) {
         // where drops / polls run: a tokio task (fresh / exhausted coop budget / unconstrained / multi-thread worker)
-        let e = Op::Env(rng.range(1, N_ENVS as u64 - 1) as u8, rng.below(4) as u8);
+        let e = Op::Env(rng.below(N_ENVS as u64) as u8, rng.below(4) as u8, if rng.chance(1, 2) { rng.range(1, N_PANICS as u64 - 1) as u8 } else { 0 });
         g.apply(&e);
         ops.push(e);
     }
@@ -1149,7 +1245,7 @@ fn process(cases: &[Case], args: &Args, slots_checked: bool) -> ShardOut {
             bumps.push(match op {
                 Op::Fin(k, _) => format!("op:fin:{k}"),
                 Op::Ctor(k) => format!("op:ctor:{k}"),
-                Op::Env(e, w) => format!("env:{} / applies to {}", ENV_NAMES[*e as usize], ["owner-ending ops", "guard drops", "wait_for_data polls", "all drops and polls"][*w as usize]),
+                Op::Env(e, w, p) => format!("env:{} / applies to {} / {}", ENV_NAMES[*e as usize], ["owner-ending ops", "guard drops", "wait_for_data polls", "all drops and polls"][*w as usize], PANIC_NAMES[*p as usize]),
                 _ => format!("op:{}", op.enc().split(':').next().unwrap()),
             });
         }
@@ -1336,11 +1432,15 @@ fn run_trace(c: &Case, pseed: u64) -> TraceOut {
     }
     let n = racers.len();
     // where each racer's drop runs: half of the traces stay on plain threads, in the others every racer draws
-    let envs: Vec<u8> = if prng.chance(1, 2) { vec![0; n] } else { (0..n).map(|_| prng.below(N_ENVS as u64) as u8).collect() };
+    let envs: Vec<(u8, u8)> = if prng.chance(1, 2) {
+        vec![(0, 0); n]
+    } else {
+        (0..n).map(|_| (prng.below(N_ENVS as u64) as u8, if prng.chance(1, 2) { prng.below(N_PANICS as u64) as u8 } else { 0 })).collect()
+    };
     let barrier = Arc::new(std::sync::Barrier::new(n.max(1)));
     let panics = Arc::new(Mutex::new(Vec::<String>::new()));
     std::thread::scope(|sc| {
-        for (r, env) in racers.into_iter().zip(envs.iter().copied()) {
+        for (r, (env, pm)) in racers.into_iter().zip(envs.iter().copied()) {
             TRACE_ENVS[env as usize].fetch_add(1, Ordering::Relaxed);
             let barrier = barrier.clone();
             let hist = hist.clone();
@@ -1355,22 +1455,22 @@ fn run_trace(c: &Case, pseed: u64) -> TraceOut {
                             log(format!("mut:{v}"));
                         }
                         log("bR".into());
-                        run_in_env(env, move || finish_owner(o, k, v));
+                        finish_in(env, pm, o, k, v);
                         log("eR".into());
                     }
                     Racer::Ref(x) => {
                         log("bR".into());
-                        run_in_env(env, move || drop(x));
+                        release(env, pm, x);
                         log("eR".into());
                     }
                     Racer::Fg(x) => {
                         log("bF".into());
-                        run_in_env(env, move || drop(x));
+                        release(env, pm, x);
                         log("eF".into());
                     }
                     Racer::Dg(x) => {
                         log("bD".into());
-                        run_in_env(env, move || drop(x));
+                        release(env, pm, x);
                         log("eD".into());
                     }
                     Racer::Sg(i, mut g, m) => {
@@ -1380,7 +1480,7 @@ fn run_trace(c: &Case, pseed: u64) -> TraceOut {
                             jitter();
                         }
                         log(format!("bG:{i}"));
-                        run_in_env(env, move || drop(g));
+                        release(env, pm, g);
                         log(format!("eG:{i}"));
                     }
                 });
@@ -1577,6 +1677,9 @@ fn trace_stage(rep: &mut Report, args: &Args, rng: &mut Rng, c13: bool, replay: 
     for (i, h) in TRACE_ENVS.iter().enumerate() {
         rep.bump_by(&format!("trace:racer drops run in: {}", ENV_NAMES[i]), h.load(Ordering::Relaxed));
     }
+    for (i, h) in PANIC_DROPS.iter().enumerate() {
+        rep.bump_by(&format!("drop operations released by: {} (all stages so far)", PANIC_NAMES[i]), h.load(Ordering::Relaxed));
+    }
     rep.bump_by("coop budget exhaustions performed (all stages so far)", BUDGET_EXHAUSTIONS.load(Ordering::Relaxed));
     rep.bump_by("wait_for_data polls that yielded on an exhausted budget and were polled again", YIELDS_REPOLLED.load(Ordering::Relaxed));
     rep.bump_by("… of which had woken their waker before the poll returned", YIELDS_WOKEN_AT_ONCE.load(Ordering::Relaxed));
@@ -1684,11 +1787,17 @@ fn main() {
         // every corpus history again with its drops / polls in every non-plain environment
         let plain: Vec<Case> = cases.iter().filter(|c| !c.ops.iter().any(|o| matches!(o, Op::Env(..)))).cloned().collect();
         for c in &plain {
-            for e in 1..N_ENVS as u8 {
+            for e in 0..N_ENVS as u8 {
                 for w in 0..4u8 {
-                    let mut ops = vec![Op::Env(e, w)];
-                    ops.extend(c.ops.iter().cloned());
-                    cases.push(Case { init: c.init, ops });
+                    for pm in 0..N_PANICS as u8 {
+                        // polls are never "panicked"; (plain thread, plain drop) is the corpus line itself
+                        if (e == 0 && pm == 0) || (w == 2 && pm != 0) {
+                            continue;
+                        }
+                        let mut ops = vec![Op::Env(e, w, pm)];
+                        ops.extend(c.ops.iter().cloned());
+                        cases.push(Case { init: c.init, ops });
+                    }
                 }
             }
         }
